@@ -86,7 +86,7 @@ def judge(res, sig, what, d, truth, out, mef_given, mef_channels, statistic, one
     summary = []
     for ci, ch in enumerate(mef_channels):
         col = arr[:, names.index(ch)]
-        stat = np.median if statistic == 'median' else np.mean
+        stat = np.median if 'median' in statistic else np.mean
         true_stats = [float(stat(col[tl == j])) for j in range(npop)]
         vals = np.asarray(out.statistic['values'][ci], dtype=float)
         if vals.shape != (npop,):
@@ -225,7 +225,8 @@ def run_pipeline(d, truth, mef_given, mef_channels, clustering_channels, statist
     as_lists = len(mef_channels) > 1 or list_form
     out = FlowCal.mef.get_transform_fxn(
         d, c_values if as_lists else c_values[0], c_channels if as_lists else c_channels[0],
-        clustering_channels=c_cluster, statistic_fxn=FlowCal.stats.median if statistic == 'median' else FlowCal.stats.mean,
+        clustering_channels=c_cluster, statistic_fxn={'median': FlowCal.stats.median, 'mean': FlowCal.stats.mean, 'np-median': np.median,
+                                                     'np-mean': np.mean}[statistic],
         full_output=True, **kw)
     for r in c_values:
         r[:] = [1.0 + i for i in range(len(r))][::-1]
@@ -250,7 +251,7 @@ def layer_a_cases(tier):
             ('saturated', [None, 'brightest', 'dimmest']),
             ('nch', [2, 1, 3]),
             ('cluster', ['mef', 'one', 'all-fl', 'with-scatter']),
-            ('statistic', ['median', 'mean']),
+            ('statistic', ['median', 'mean', 'np-median', 'np-mean']),       # the documented choices: FlowCal.stats or NumPy functions
             ('order', ['shuffled', 'sorted', 'reversed', 'interleaved']),
             ('blank', [False, True]),
             ('selection', ['default', 'none'])]          # 'none': selection_fxn=None (documented: no population selection procedure)
